@@ -203,6 +203,30 @@ namespace sim
               return "length " + names[li];
             }
         }
+      if (rng.chance(0.06))
+        {
+          // the lists that give a feature its shape, emptied or cut down to one entry: the schema has little to
+          // say about their lengths, the geometry code a lot
+          static const char *shape[] = {"segments", "coordinates", "sections", "dip point"};
+          std::vector<size_t> hits;
+          for (size_t i = 0; i < nodes.size(); ++i)
+            if (nodes[i].in_object && node_value(nodes[i]).IsArray())
+              {
+                const std::string k = node_key(nodes[i]);
+                for (const char *t : shape)
+                  if (k == t)
+                    hits.push_back(i);
+              }
+          if (!hits.empty())
+            {
+              Value &lv = node_value(nodes[hits[rng.below(hits.size())]]);
+              const bool empty = rng.chance(0.6);
+              while (lv.Size() > (empty ? 0u : 1u))
+                lv.PopBack();
+              ++applied;
+              return empty ? "shape-list-emptied" : "shape-list-cut";
+            }
+        }
       // bias towards arrays (list-valued parameters that have to agree in length)
       NodeRef n = nodes[rng.below(nodes.size())];
       if (rng.chance(0.45))
@@ -875,7 +899,19 @@ namespace sim
     // base document
     WorldInfo base;
     const double bsel = rng.real();
-    if (bsel < 0.5 && !ok.empty())
+    // documents kept from repaired findings (corpus/verif_regression_*.wb): nothing is expected of them except
+    // what is expected of any byte string - built or refused with a message, never a crash or a hang
+    bool regression_doc = false;
+    std::vector<size_t> regress;
+    for (size_t i = 0; i < cat.size(); ++i)
+      if (cat[i].name.find("verif_regression_") == 0)
+        regress.push_back(i);
+    if (bsel < 0.015 && !regress.empty())
+      {
+        base = cat[regress[rng.below(regress.size())]];
+        regression_doc = true;
+      }
+    else if (bsel < 0.5 && !ok.empty())
       base = cat[ok[rng.below(ok.size())]];
     else
       {
@@ -883,7 +919,7 @@ namespace sim
         base = analyse_world("gen.wb", g.json);
       }
     const std::string intact = "/simfs/intact.wb", doc = "/simfs/doc.wb", variant = "/simfs/variant.wb";
-    const bool base_buildable = base.content.find("\"continuous\"") == std::string::npos;
+    const bool base_buildable = !regression_doc && base.content.find("\"continuous\"") == std::string::npos;
     if (base_buildable && rng.chance(0.06))
       {
         // several threads build (and query, and destroy) worlds of their own at the same time: constructors
@@ -1182,7 +1218,7 @@ namespace sim
     for (const auto &f : c.faults)
       if (f.kind != simfs::F_SHORT_READ && f.kind != simfs::F_EINTR)
         delivery_only = false;
-    const bool base_is_refused = base.content.find("\"continuous\"") != std::string::npos;
+    const bool base_is_refused = regression_doc || base.content.find("\"continuous\"") != std::string::npos;
     if (delivery_only && applied == 0 && bytes == base.content && why.empty() && !base_is_refused && c.alloc_fail == 0)
       c.expect = "accept";
     c.note = open_fails ? "open-fail" : (why.empty() ? (c.expect == "accept" ? "piecewise-delivery" : "valid") : why);
@@ -1202,6 +1238,24 @@ namespace sim
         q.noref = true;
         s.ops.push_back(q);
       }
+    // and at the surface right on the features' own coordinates (and between two of them): whatever shape a
+    // damaged feature still has, this is where it is
+    if (!base.coords.empty())
+      for (int i = 0; i < 4; ++i)
+        {
+          const auto &c1 = base.coords[rng.below(base.coords.size())];
+          const auto &c2 = rng.chance(0.5) ? c1 : base.coords[rng.below(base.coords.size())];
+          static const double depths[] = {0.0, 1.0, 1000.0, 20000.0};
+          const double depth = depths[rng.below(4)];
+          Op q;
+          q.op = "q3";
+          natural_to_query(base, 0.5 * (c1[0] + c2[0]), 0.5 * (c1[1] + c2[1]), depth, q.p);
+          q.d = depth;
+          q.props = {Prop{{1, 0, 0}}, Prop{{2, 0, 0}}, Prop{{4, 0, 0}}};
+          q.h = 0;
+          q.noref = true;
+          s.ops.push_back(q);
+        }
     Op d0;
     d0.op = "destroy";
     d0.h = 0;
@@ -1213,8 +1267,8 @@ namespace sim
     ci.op = "create";
     ci.h = 1;
     ci.file = intact;
-    ci.expect = base_refused ? "reject" : "accept";
-    ci.note = base_refused ? "unavailable-depth-method" : "intact-after";
+    ci.expect = regression_doc ? "" : (base_refused ? "reject" : "accept");
+    ci.note = regression_doc ? "regression-document" : (base_refused ? "unavailable-depth-method" : "intact-after");
     s.ops.push_back(ci);
     const bool fmt = s.generator == "c12/format" || rng.chance(0.15);
     if (fmt)
@@ -1226,7 +1280,7 @@ namespace sim
         cv.op = "create";
         cv.h = 2;
         cv.file = variant;
-        cv.expect = base_refused ? "reject" : "accept";
+        cv.expect = regression_doc ? "" : (base_refused ? "reject" : "accept");
         cv.note = base_refused ? "unavailable-depth-method" : "format-variant";
         s.ops.push_back(cv);
       }
